@@ -99,15 +99,26 @@ def analyse_site(ctx, crate, path, clause):
             if c[1] not in names or l[0] != 'p' or l[1] not in names:
                 okc = False; continue
             ci, li = names.index(c[1]), names.index(l[1])
-            for cpath, cbb in callers:
-                ce = Engine(crate, opaque={fnname}, max_depth=2, inline=lambda n, d: False)
-                ce.run(cpath)
-                for cev in ce.events.values():
-                    if cev.callee == fnname and len(cev.site) == 2:
-                        a_c, a_l = cev.args[ci], cev.args[li]
-                        if not (is_cos(a_c) and a_c[2][0] == a_l):
-                            okc = False
-                            detail += " — at %s the parameter `%s` receives %s, not cos(%s)" % (cev.at, c[1], show(a_c)[:40], show(a_l)[:40])
+            def callers_pass_cos(fname, ci_, li_, depth_=0):
+                # every caller of fname passes cos(actual of the latitude) for the cosine parameter; a caller
+                # that forwards its own (cosine, latitude) parameters is checked at its own callers in turn
+                bad_ = []
+                for cpath, cbb in crate.callers().get(fname, []):
+                    ce = Engine(crate, opaque={fname}, max_depth=2, inline=lambda n, d: False)
+                    ce.run(cpath)
+                    cb_ = crate.body(cpath)
+                    for cev in ce.events.values():
+                        if cev.callee == fname and len(cev.site) == 2:
+                            a_c, a_l = cev.args[ci_], cev.args[li_]
+                            if is_cos(a_c) and a_c[2][0] == a_l: continue
+                            pn_ = cb_.param_names() if cb_ is not None else []
+                            if depth_ < 2 and a_c[0] == 'p' and a_l[0] == 'p' and a_c[1] in pn_ and a_l[1] in pn_:
+                                bad_ += callers_pass_cos(cpath, pn_.index(a_c[1]), pn_.index(a_l[1]), depth_ + 1); continue
+                            bad_.append((cev.at, show(a_c)[:40], show(a_l)[:40]))
+                return bad_
+            for at_, sc_, sl_ in callers_pass_cos(fnname, ci, li):
+                okc = False
+                detail += " — at %s the parameter `%s` receives %s, not cos(%s)" % (at_, c[1], sc_, sl_)
         res.append((okc, detail, ev.at))
     return res
 
